@@ -137,7 +137,7 @@ func cstReduce(c *cst, fails func(string) bool) *cst {
 	for changed := true; changed; {
 		changed = false
 		for _, cand := range cur.shrinks() {
-			if (cand.size() < cur.size() || (cand.size() == cur.size() && cand.render() < cur.render())) && fails(cand.render()) {
+			if (cand.size() < cur.size() || (cand.size() == cur.size() && len(serFeatures(cand.render())) < len(serFeatures(cur.render())))) && fails(cand.render()) {
 				cur, changed = cand, true
 				break
 			}
